@@ -172,7 +172,9 @@ theorem evolves_step (op : Op) (s : Store) (h : Inv s) (hc : op.keepsClass = tru
     | none => exact evolves_addEdge _ _ _ s
     | some p => simp only; split; exact R; exact evolves_addEdge _ _ _ s
   | updateNodeProperty g nid k v =>
-    simp only [step, updateNodeProperty]
+    simp only [step]
+    refine assertVal_pred (Evolves s) _ s _ R ?_
+    simp only [updateNodeProperty]
     split
     · exact R
     · rename_i hk
@@ -193,7 +195,9 @@ theorem evolves_step (op : Op) (s : Store) (h : Inv s) (hc : op.keepsClass = tru
           · exact evolves_updNode s i _ (fun n _ _ => rel_erase k n.attrs hk hnu)
           · exact R
   | updateNodesProperty g k v =>
-    simp only [step, updateNodesProperty]
+    simp only [step]
+    refine assertVal_pred (Evolves s) _ s _ R ?_
+    simp only [updateNodesProperty]
     split
     · exact R
     · split
@@ -211,7 +215,9 @@ theorem evolves_step (op : Op) (s : Store) (h : Inv s) (hc : op.keepsClass = tru
       exact withNode_pred (Evolves s) s g nid _ R
         (fun i _ => evolves_updNode s i _ (fun n _ _ => rel_update n.attrs props (by simpa using hk)))
   | updateLinkProperty g a b kind k v =>
-    simp only [step, updateLinkProperty]
+    simp only [step]
+    refine assertVal_pred (Evolves s) _ s _ R ?_
+    simp only [updateLinkProperty]
     split
     · exact R
     · exact withLink_pred (Evolves s) s g a b kind _ R (fun _ _ _ _ _ => evolves_of_nodes_subset s _ rfl (fun n hn => hn))
